@@ -307,7 +307,7 @@ K("c04_bh64_t72_norm", "C04", M_ALG, tiers=("thorough",), cap=(0, 3000), cost=30
   enc=["parse_block_hash_from_bytes::<_,64>"])
 for (S, s1, s2, norm) in [("short_norm", 64, 32, True), ("short_raw", 64, 32, False),
                           ("long_norm", 64, 64, True), ("long_raw", 64, 64, False)]:
-    K("c04_driver_%s_t10" % S, "C04", M_HASH, tiers=("quick",), cap=(480, 0), cost=200, mem=12,
+    K("c04_driver_%s_t10" % S, "C04", M_HASH, tiers=("quick",), cap=(900, 0), cost=200, mem=12,
       unwindset=alg_rules(n_text=12, n_verify=12), shape="BMC",
       bound="from_bytes_with_last_index of FuzzyHashData<%d,%d,%s>: every byte string of <= 10 bytes" % (s1, s2, norm),
       enc=["FuzzyHashData::from_bytes_with_last_index", "from_bytes", "hash_from_bytes_with_last_index_internal_template",
@@ -874,7 +874,38 @@ K("c10_window_injective", "C10", M_BLOCK, shape="full domain", cap=(300, 600), c
 # C04 (dual types), C07 (parser route), C14 (feature matrix)
 # ------------------------------------------------------------------------------------
 DUAL_PARSE_RULES = alg_rules(n_text=42, n_verify=42) + dual_rules(n_in=42, n_rle=17)
-for (nm, tiers, cap, cost, T) in [("c04_dual_driver_short_t10", ("quick", "thorough"), (900, 2400), 500, 10),
+for (nm, T, tiers, uw) in [("c04_dual_like_raw_short_t40", 40, ("quick", "thorough"), 42), ("c04_dual_like_raw_short_t12", 12, ("thorough",), 14),
+                           ("c04_dual_like_raw_long_t12", 12, ("thorough",), 14), ("c04_dual_like_raw_long_cap64", 70, ("thorough",), 72)]:
+    K(nm, "C04", M_DUAL, cfg="release", tiers=tiers, cap=(900, 2400), cost=500, mem=14, stubbing=True,
+      unwindset=alg_rules(n_text=uw, n_verify=uw), shape="BMC",
+      bound="dual parser == raw parser of the same capacity (accepted set, end index, error kind/origin/offset; compress "
+            "precondition raw length <= capacity) on every text of <= %d bytes%s; compress_block_hash_with_rle replaced by a "
+            "stub that checks its precondition (its result is decided by the C07 kernel queries)"
+            % (T, {40: " starting with '3::' (block hash 2 reaches and exceeds 32 symbols)",
+                   70: " starting with '3::' + 62 fixed symbols (block hash 2 reaches and exceeds 64 symbols)"}.get(T, "")),
+      enc=["FuzzyHashDualData::from_bytes_with_last_index", "FuzzyHashDualData::from_raw_form (compress stubbed)",
+           "FuzzyHashData<_,_,false>::from_bytes_with_last_index"])
+for (nm, tiers, what) in [
+        ("c04_dual_accept_within_capacity_fixed40", ("quick", "thorough"), "'3::' + every 37 bytes (text length 40; shorter block hashes via a ',name' tail)"),
+        ("c04_dual_accept_within_capacity_t40", ("thorough",), "'3::' + every <= 37 bytes, every text length 3..40"),
+        ("c04_dual_capacity_prefix_run29_t36", ("quick", "thorough"), "'3::' + 'A'*29 + every 4 bytes"),
+        ("c04_dual_capacity_prefix_runfree29_t36", ("quick", "thorough"), "'3::' + 29 fixed run-free symbols + every 4 bytes"),
+        ("c04_dual_capacity_prefix_run29", ("quick", "thorough"), "'3::' + 'A'*29 + every 8 bytes"),
+        ("c04_dual_capacity_prefix_runfree29", ("quick", "thorough"), "'3::' + 29 fixed run-free symbols + every 8 bytes")]:
+    K(nm, "C04", M_DUAL, cfg="release", tiers=tiers, cap=(600, 1800), cost=60, mem=14, stubbing=True,
+      unwindset=alg_rules(n_text=42, n_verify=42), shape="BMC",
+      bound="every dual hash the parser returns has raw block hash lengths (norm length + RLE extensions) within capacity "
+            "(64 / 32), no panic: " + what + "; compress_block_hash_with_rle stubbed by its precondition check",
+      enc=["FuzzyHashDualData::from_bytes", "from_bytes_with_last_index_internal"])
+K("c11_dual_parser_capacity_prefix", "C11", M_DUAL, fn="c04_dual_capacity_prefix_runfree29_t36", cfg="release", cap=(600, 1800), cost=60, mem=14,
+  stubbing=True, unwindset=alg_rules(n_text=42, n_verify=42), shape="BMC",
+  bound="dual parser output raw lengths within capacity, no panic: '3::' + 29 fixed symbols + every 4 bytes (compress stubbed)",
+  enc=["FuzzyHashDualData::from_bytes"])
+K("c11_dual_parser_capacity_fixed40", "C11", M_DUAL, fn="c04_dual_accept_within_capacity_fixed40", cfg="release", cap=(600, 1800), cost=60, mem=14,
+  stubbing=True, unwindset=alg_rules(n_text=42, n_verify=42), shape="BMC",
+  bound="dual parser output raw lengths within capacity, no panic: '3::' + every 37 bytes (compress stubbed)",
+  enc=["FuzzyHashDualData::from_bytes"])
+for (nm, tiers, cap, cost, T) in [("c04_dual_driver_short_t10", ("thorough",), (900, 3600), 2000, 10),
                                   ("c04_dual_driver_long_t10", ("thorough",), (0, 2400), 500, 10),
                                   ("c04_dual_driver_short_t14", ("thorough",), (0, 3600), 1500, 14),
                                   ("c04_dual_capacity_bh2_short_t37", ("thorough",), (0, 3600), 2000, 37),
@@ -1120,12 +1151,17 @@ K("c08_ed_long_a_short_b_q", "C08", M_PA, fn="c08_ed_long_a_short_b", cfg="relea
   bound="|a| in {63,64} over 4 symbols, |b| <= 3 (top bits of the 64-bit vector, full-length strings)",
   enc=["BlockHashPositionArrayImplInternal::edit_distance_internal"], assumptions=[ASSUME_SYM, ASSUME_MASKS])
 
-K("c04_dual_capacity_bh2_short_tail", "C04", M_DUAL, cfg="release", cap=(900, 2400), cost=400, mem=14,
+K("c04_dual_capacity_bh2_short_tail", "C04", M_DUAL, cfg="release", tiers=("thorough",), cap=(900, 3600), cost=2000, mem=14,
   unwindset=alg_rules(n_text=42, n_verify=42) + dual_rules(n_in=42, n_rle=17), shape="BMC",
   bound="dual parser, capacity class: '3::' + 29 fixed pairwise different symbols + every byte string of <= 8 bytes (block hash 2 "
         "reaches and exceeds 32 symbols raw, with runs that collapse)",
   enc=["FuzzyHashDualData::from_bytes_with_last_index", "from_raw_form", "to_raw_form", "is_valid"])
-K("c11_dual_parser_valid_tail", "C11", M_DUAL, fn="c04_dual_capacity_bh2_short_tail", cfg="release", cap=(900, 2400), cost=400, mem=14,
+K("c11_dual_parser_like_raw_t40", "C11", M_DUAL, fn="c04_dual_like_raw_short_t40", cfg="release", cap=(900, 2400), cost=500, mem=14, stubbing=True,
+  unwindset=alg_rules(n_text=42, n_verify=42), shape="BMC",
+  bound="the dual parser never accepts (or panics on) a text the raw parser of the same capacity rejects, and hands compress "
+        "only block hashes within capacity: '3::' + every <= 37 bytes (compress stubbed)",
+  enc=["FuzzyHashDualData::from_bytes_with_last_index"])
+K("c11_dual_parser_valid_tail", "C11", M_DUAL, fn="c04_dual_capacity_bh2_short_tail", cfg="release", tiers=("thorough",), cap=(900, 3600), cost=2000, mem=14,
   unwindset=alg_rules(n_text=42, n_verify=42) + dual_rules(n_in=42, n_rle=17), shape="BMC",
   bound="dual parser on the capacity class '3::' + 29 run-free symbols + <= 8 free bytes: Ok => is_valid, never panics",
   enc=["FuzzyHashDualData::from_bytes_with_last_index"])
